@@ -1,4 +1,5 @@
 import Driver.Files
+import Driver.EngineCmd
 open Pyctr
 
 /-- `(fileops NODE (OP …))` → one rendered output per op, then the bottom buffers -/
@@ -26,6 +27,7 @@ def handle (line : String) : String :=
     match cmd with
     | "fileops" => handleFileOps args
     | "aesenc" | "aesdec" | "sha256" | "sha1" => handlePrim cmd args
+    | "engine" => handleEngine args
     | "ping" => "pong"
     | _ => "bad-cmd"
   | _ => "bad-line"
